@@ -117,6 +117,17 @@ void prop(Src& s, Ctx& ctx) {
     std::vector<uint8_t> y2(data.begin(), data.begin() + std::min(pre, data.size()));
     y2.insert(y2.end(), y.begin(), y.end());
     std::unique_ptr<PDU> q;
+    // known root cause shared with C05's open finding: without an extension structure the RFC 4884 length attribute
+    // counts padding that is not emitted, so a parser looks for extensions beyond the real end of the quoted datagram
+    // (and rejects the packet, or falls back to "extensions start after 128 octets" and reads payload bytes as extensions)
+    bool rfc4884 = false;
+    for (const PDU* l = p.get(); l; l = l->inner_pdu()) {
+        if (const ICMP* ic = dynamic_cast<const ICMP*>(l)) {
+            if (!ic->has_extensions() && ic->length() != 0 && ic->inner_pdu() && (uint32_t)ic->length() * 4 > ic->inner_pdu()->size()) rfc4884 = true;
+        } else if (const ICMPv6* i6 = dynamic_cast<const ICMPv6*>(l)) {
+            if (!i6->has_extensions() && i6->length() != 0 && i6->inner_pdu() && (uint32_t)i6->length() * 8 > i6->inner_pdu()->size()) rfc4884 = true;
+        }
+    }
     bool rejected = false;
     // The EN10MB entry picks EthernetII or Dot3 from a heuristic on byte 12 (the tag / length field, which libtins may
     // legitimately rewrite): the re-parse uses the class that was chosen for b.
@@ -143,16 +154,6 @@ void prop(Src& s, Ctx& ctx) {
                 only_padding = q2 != nullptr;
             } catch (const std::exception&) {}
         }
-        // known root cause shared with C05's open finding: without an extension structure the RFC 4884 length attribute
-        // counts padding that is not emitted, so a parser looks for extensions beyond the real end of the quoted datagram
-        bool rfc4884 = false;
-        for (const PDU* l = p.get(); l; l = l->inner_pdu()) {
-            if (const ICMP* ic = dynamic_cast<const ICMP*>(l)) {
-                if (!ic->has_extensions() && ic->length() != 0 && ic->inner_pdu() && (uint32_t)ic->length() * 4 > ic->inner_pdu()->size()) rfc4884 = true;
-            } else if (const ICMPv6* i6 = dynamic_cast<const ICMPv6*>(l)) {
-                if (!i6->has_extensions() && i6->length() != 0 && i6->inner_pdu() && (uint32_t)i6->length() * 8 > i6->inner_pdu()->size()) rfc4884 = true;
-            }
-        }
         if (rfc4884) {
             VCHECK(ctx, false, "C03:reparse-rejected:rfc4884-length-counts-padding-that-is-not-emitted", chain << ": libtins rejects its own serialisation y=" << hex(y, 1024) << " | " << origin);
             return;
@@ -168,6 +169,15 @@ void prop(Src& s, Ctx& ctx) {
     normalise(vp);
     normalise(vq);
     if (absorb_ethernet_padding(vp, vq)) ctx.label("ethernet-padding-absorbed");
+    if (rfc4884) {
+        // same root cause, other symptom: the re-parse is accepted but finds "extensions" inside the quoted datagram
+        std::string tp = to_text(vp), tq = to_text(vq);
+        if (tp != tq) {
+            VCHECK(ctx, false, "C03:reparse-differs:rfc4884-length-counts-padding-that-is-not-emitted",
+                   chain << " re-parsed as " << layer_chain(*q) << " with different contents; y=" << hex(y, 1024) << " | " << origin);
+            return;
+        }
+    }
     // same stack of layers
     size_t n = std::min(vp.size(), vq.size());
     for (size_t i = 0; i < n; ++i) {
